@@ -4,6 +4,10 @@ usage: reseed.py [SEED-ID ...]   (default: all of /verif/seeded/*)
 Each change is applied to a scratch worktree of /repo HEAD (never to /repo itself)."""
 import sys, os, json, subprocess, tempfile, shutil, re
 seeds = sys.argv[1:] or sorted(os.listdir('/verif/seeded'))
+# FROZEN=<dir> (with bin/govc, spec/, expected/, known_findings.json) and REV=<commit of /repo> pin the
+# machinery a long background re-run uses, so that work going on in /verif and /repo does not disturb it
+FROZEN = os.environ.get('FROZEN', '/verif')
+REV = os.environ.get('REV', 'HEAD')
 manifest = json.load(open('/verif/MANIFEST.json'))
 claimed = [c['property_id'] for c in manifest['checks']]
 # which registered checks to run for a seed: its own property plus the ones its files are carriers of
@@ -16,7 +20,7 @@ for sd in seeds:
     prop = meta.get('property', sd.split('-')[0])
     props = [p for p in [prop] + extra.get(sd, []) if p in claimed]
     wt = tempfile.mkdtemp(prefix='reseed-', dir='/var/tmp'); os.rmdir(wt)
-    subprocess.check_call(['git', '-C', '/repo', 'worktree', 'add', '-q', '--detach', wt, 'HEAD'])
+    subprocess.check_call(['git', '-C', '/repo', 'worktree', 'add', '-q', '--detach', wt, REV])
     results = {}
     try:
         a = subprocess.run(['git', '-C', wt, 'apply', f'{d}/patch.diff'], capture_output=True, text=True)
@@ -24,7 +28,7 @@ for sd in seeds:
             print(sd, 'PATCH DOES NOT APPLY', a.stderr[:200]); continue
         for p in props:
             rd = tempfile.mkdtemp(prefix='reseedrep-', dir='/var/tmp')
-            r = subprocess.run(['/verif/bin/govc', 'check', '--property', p, '--repo', wt, '--no-evidence', '--replay-dir', rd], cwd='/verif', capture_output=True, text=True)
+            r = subprocess.run([FROZEN + '/bin/govc', 'check', '--property', p, '--repo', wt, '--no-evidence', '--replay-dir', rd], cwd=FROZEN, capture_output=True, text=True, env=dict(os.environ, GOVC_VERIF_DIR=FROZEN))
             shutil.rmtree(rd, ignore_errors=True)
             viol = [l for l in (r.stdout + r.stderr).split('\n') if l.startswith('govc: ') and '#' in l]
             results[p] = {'exit': r.returncode, 'violations': len([l for l in r.stdout.split('\n') if l.startswith('VIOLATION')]), 'failed_obligations': [v[6:170] for v in viol][:6]}
